@@ -366,6 +366,12 @@ func (w *World) restart(ctx context.Context, p int, amount int) error {
 		}
 	}
 	_ = pr.odb.Close()
+	// the instance is closed: nothing of the library listens on its bus any more (what the harness itself
+	// subscribed to is left out: store events of the watchers)
+	if pr.census != nil {
+		time.Sleep(2 * time.Millisecond)
+		w.printf("buscensus %d %s\n", p, pr.census.open(w.ownBusSubs(p)))
+	}
 	pr.identity = nil
 	if err := w.startInstanceFresh(pr); err != nil {
 		return err
